@@ -29,7 +29,9 @@ var (
 	mu       sync.Mutex
 	outcomes = map[string]struct{}{}
 	debug    = os.Getenv("VERIF_DEBUG") != ""
-	dbgFails = map[string]string{}
+	// replayMode: Check runs after every operation on one instance, so it must not modify it.
+	replayMode bool
+	dbgFails   = map[string]string{}
 )
 
 // drift is value-minus-reference per component ("<container>/<counter>").
@@ -74,7 +76,7 @@ func against(d drift, cn string, st [7]uint64, rc mw.CnrCount) {
 	d[cn+"/size"] = int64(st[6]) - int64(rc.LiveSize)
 }
 
-func measure(w *mw.World) *measurement {
+func measure(w *mw.World, inPlace bool) *measurement {
 	ms := &measurement{impl: drift{}, sync: drift{}}
 	before := w.Dump()
 	ms.dump = before
@@ -128,20 +130,30 @@ func measure(w *mw.World) *measurement {
 		ms.immediate = append(ms.immediate, "api:ObjectCounters-differs-from-stored-counters")
 	}
 
-	// the repository's recount on a copy
-	cp, path, err := w.CopyAndSync()
-	if err != nil {
-		ms.immediate = append(ms.immediate, "harness:copy-and-sync-failed:"+err.Error())
-		return ms
+	// the repository's recount: on a copy of the file, or (final measurement of a world that is
+	// discarded right afterwards) in place, which is much cheaper
+	var after *mw.Dump
+	if inPlace {
+		if err := w.SyncInPlace(); err != nil {
+			ms.immediate = append(ms.immediate, "harness:sync-failed:"+err.Error())
+			return ms
+		}
+		after = w.Dump()
+	} else {
+		cp, path, err := w.CopyAndSync()
+		if err != nil {
+			ms.immediate = append(ms.immediate, "harness:copy-and-sync-failed:"+err.Error())
+			return ms
+		}
+		after = mw.DumpDB(cp)
+		mw.CloseCopy(cp, path)
 	}
-	after := mw.DumpDB(cp)
 	for c := 0; c < mw.NCnr; c++ {
 		ra := after.Recount(c)
 		if ra.Exists && !ra.Removed {
 			against(ms.sync, mw.CnrNames[c], ra.Stored, rcs[c])
 		}
 	}
-	mw.CloseCopy(cp, path)
 	return ms
 }
 
@@ -270,7 +282,10 @@ func oracle(s *mw.Sys) (string, string) {
 		outcomes[o.Kind.String()+":"+mw.ErrClass(s.Errs[len(s.Errs)-1])] = struct{}{}
 		mu.Unlock()
 	}
-	final := measure(s.W)
+	// During exploration the instance is discarded right after Check/Key, so the final measurement
+	// may resync the live DB in place (key frozen first); a replay keeps using the instance.
+	s.FreezeKey()
+	final := measure(s.W, !replayMode)
 	if final.clean() {
 		return "", ""
 	}
@@ -283,7 +298,8 @@ func oracle(s *mw.Sys) (string, string) {
 		err := w.Exec(o)
 		m.Apply(o, err == nil)
 	}
-	prev := measure(w)
+	single := s.LastSteps == 1
+	prev := measure(w, single) // single step: this world is not needed afterwards
 	report := func(fp, what string) (string, string) {
 		if debug {
 			mu.Lock()
@@ -296,9 +312,17 @@ func oracle(s *mw.Sys) (string, string) {
 	}
 	for _, o := range s.Steps[n:] {
 		cls := targetClass(prev.dump, m, o)
-		err := w.Exec(o)
-		m.Apply(o, err == nil)
-		cur := measure(w)
+		var err error
+		var cur *measurement
+		if single {
+			err = s.Errs[len(s.Errs)-1]
+			m.Apply(o, err == nil)
+			cur = final
+		} else {
+			err = w.Exec(o)
+			m.Apply(o, err == nil)
+			cur = measure(w, false)
+		}
 		verdict := mw.ErrClass(err)
 		var newImm []string
 		for _, im := range cur.immediate {
@@ -321,9 +345,9 @@ func oracle(s *mw.Sys) (string, string) {
 			what := fmt.Sprintf("%s (%s; verdict %s) makes the stored counters differ from the raw-dump recount (counter minus recount): %s", o, cls, verdict, det)
 			if len(wsy) > 0 {
 				_, d2 := render(o, prev.sync, cur.sync, wsy)
-				what += "; DB.SyncCounters on a copy is off too: " + d2
+				what += "; DB.SyncCounters is off too: " + d2
 			} else {
-				what += "; DB.SyncCounters on a copy gives the recount's values for these"
+				what += "; DB.SyncCounters gives the recount's values for these"
 			}
 			return report(fmt.Sprintf("counters:%s(%s):%s:%s", o.Kind, cls, verdict, c), what)
 		}
@@ -346,7 +370,7 @@ func oracle(s *mw.Sys) (string, string) {
 				}
 			}
 			return report(fmt.Sprintf("resync:%s:state-has:%s", c, strings.Join(why, "+")),
-				fmt.Sprintf("after %s (%s) the repository's own recount DB.SyncCounters, run on a copy, differs from the raw-dump recount while the incrementally kept counters agree with it (resynced minus recount): %s", o, cls, det))
+				fmt.Sprintf("after %s (%s) the repository's own recount DB.SyncCounters differs from the raw-dump recount while the incrementally kept counters agree with it (resynced minus recount): %s", o, cls, det))
 		}
 		prev = cur
 	}
@@ -357,12 +381,15 @@ func oracle(s *mw.Sys) (string, string) {
 // put, put with parent header, tombstone of unstored / stored / parent / child target, repeated and
 // redundant-then-default marks, revive after tombstone and after mark, delete of a parent through
 // its last child, container removal).
-func driftAlphabet() []mw.Op {
-	return mw.OpsByName(
-		"Put(R2)", "Put(C1)", "Put(C2)", "Put(E0)", "Put(T3)", "Put(T2)", "Put(T5)",
-		"MarkGarbage(R2)", "MarkRedundant(R2)", "MarkGarbage(P)", "MarkGarbage(E0)",
-		"Delete(R2)", "Delete(C2)", "Delete(E0)", "Revive(R2)", "Revive(C2)", "Revive(E0)",
-		"InhumeContainer(cA)", "DeleteContainer(cA)")
+func driftAlphabet(thorough bool) []mw.Op {
+	names := []string{"Put(R2)", "Put(C1)", "Put(C2)", "Put(E0)", "Put(T3)", "Put(T2)",
+		"MarkGarbage(R2)", "MarkRedundant(R2)", "MarkGarbage(P)",
+		"Delete(R2)", "Delete(C2)", "Revive(R2)", "Revive(C2)",
+		"InhumeContainer(cA)", "DeleteContainer(cA)"}
+	if thorough { // EC child variants
+		names = append(names, "Put(T5)", "MarkGarbage(E0)", "Delete(E0)", "Revive(E0)")
+	}
+	return append(mw.OpsByName(names...), mw.MacroOps()...)
 }
 
 func main() {
@@ -374,11 +401,11 @@ func main() {
 	defer os.RemoveAll(scratch)
 
 	full := append(mw.FullAlphabet(), mw.MacroOps()...)
-	dr := driftAlphabet()
+	dr := driftAlphabet(r.Thorough())
 	// one alphabet for replays: the union (drift letters are a subset of the full alphabet)
 	fullDepth, driftDepth := 2, 3
 	if r.Thorough() {
-		fullDepth, driftDepth = 3, 5
+		fullDepth, driftDepth = 3, 4
 	}
 	mk := func(ops []mw.Op, depth int) seqx.Config {
 		return seqx.Config{NumOps: len(ops), MaxDepth: depth, CheckInit: true,
@@ -386,6 +413,7 @@ func main() {
 			New:    func() seqx.Sys { return mw.NewSys(ops, oracle) }}
 	}
 	if r.Replay != "" {
+		replayMode = true
 		var rp struct{ Ops []string }
 		r.LoadReplay(&rp)
 		fp, what, err := seqx.Replay(mk(full, 0), rp.Ops)
@@ -419,7 +447,7 @@ func main() {
 	r.Set("depth_completed", fmt.Sprintf("full alphabet: %d, drift alphabet: %d", res1.DepthCompleted, res2.DepthCompleted))
 	r.Set("outcome_classes", len(outcomes))
 	r.Set("alphabet_size", fmt.Sprintf("full %d (incl. %d macros), drift %d", len(full), len(mw.MacroOps()), len(dr)))
-	r.Rule(fmt.Sprintf("two BFS runs with state dedup from the empty metabase: (1) all sequences of <= %d letters over the full metaworld alphabet (%d elementary operations + %d scripted prefixes enabled in the initial state only), (2) all sequences of <= %d letters over the reduced %d-letter drift alphabet (duplicate put, put with parent header, tombstones of unstored/stored/parent/child targets, repeated and redundant-then-default marks, revive after tombstone and after mark, delete of a parent through its last child, container removal); state key = raw bbolt dump + epoch + reference model; non-trivial = reaches a state not seen before; both oracles run after every transition (depths completed: %d and %d)", fullDepth, len(mw.FullAlphabet()), len(mw.MacroOps()), driftDepth, len(dr), res1.DepthCompleted, res2.DepthCompleted))
+	r.Rule(fmt.Sprintf("two BFS runs with state dedup from the empty metabase: (1) all sequences of <= %d letters over the full metaworld alphabet (%d elementary operations + %d scripted prefixes enabled in the initial state only), (2) all sequences of <= %d letters over the reduced %d-letter drift alphabet incl. the same prefixes (duplicate put, put with parent header, tombstones of unstored/stored/parent/child targets, repeated and redundant-then-default marks, revive after tombstone and after mark, delete of a parent through its last child, container removal); state key = raw bbolt dump + epoch + reference model; non-trivial = reaches a state not seen before; both oracles run after every transition (depths completed: %d and %d)", fullDepth, len(mw.FullAlphabet()), len(mw.MacroOps()), driftDepth, len(dr), res1.DepthCompleted, res2.DepthCompleted))
 	r.Assume("single-threaded histories on one metabase (bbolt batch size 1)",
 		"per-type counters of a container that was marked for removal as a whole are not compared with the raw recount (the implementation zeroes them while the objects are still indexed; the text is silent about that window); they are compared with DB.SyncCounters")
 	os.RemoveAll(scratch)
